@@ -2320,13 +2320,17 @@ sexp sexp_make_env_op (sexp ctx, sexp self, sexp_sint_t n) {
 
 sexp sexp_make_null_env_op (sexp ctx, sexp self, sexp_sint_t n, sexp version) {
   sexp_uint_t i;
+  char *name;
   sexp_gc_var2(e, core);
   sexp_gc_preserve2(ctx, e, core);
   e = sexp_make_env(ctx);
   for (i=0; i<(sizeof(core_forms)/sizeof(core_forms[0])); i++) {
     core = sexp_copy_core(ctx, &core_forms[i]);
-    sexp_env_define(ctx, e, sexp_intern(ctx, (char*)sexp_core_name(core), -1), core);
-    sexp_core_name(core) = sexp_c_string(ctx, (char*)sexp_core_name(core), -1);
+    /* don't leave the raw C string in a traced slot across allocations */
+    name = (char*)sexp_core_name(core);
+    sexp_core_name(core) = SEXP_FALSE;
+    sexp_env_define(ctx, e, sexp_intern(ctx, name, -1), core);
+    sexp_core_name(core) = sexp_c_string(ctx, name, -1);
   }
   sexp_gc_release2(ctx);
   return e;
